@@ -9,7 +9,9 @@
 package downloader
 
 import (
+	"math/big"
 	"sort"
+	"sync"
 	"time"
 
 	"github.com/youchainhq/go-youchain/common"
@@ -303,4 +305,305 @@ func (v *VerifQueue) Dump() *VerifDump {
 		p.lock.RUnlock()
 	}
 	return d
+}
+
+// ---------------------------------------------------------------------------------------------------
+// End-to-end driver for the REAL body fetch loop (Downloader.fetchBodies / fetchParts) with scripted
+// peers. The Downloader is assembled exactly as fetchBodies needs it (real queue, PeerSet,
+// peerConnections via RegisterPeer); nothing of the loop is re-implemented. With Trace=true fetchParts
+// is called directly with the very callbacks fetchBodies wires up, each wrapped to record the call —
+// the wrappers add no logic. Results is called from inside the expire wrapper (ImportEvery) so that the
+// queue is only ever touched from the loop goroutine and the recorded call sequence is total.
+
+const (
+	VerifPeerHonest     = iota // answers every request completely and correctly
+	VerifPeerStaller           // takes requests and never answers
+	VerifPeerDisconnect        // drops the connection when asked
+	VerifPeerLiarOnce          // first answer has the bodies rotated by one, later answers are honest
+	VerifPeerSlow              // answers correctly after DelayMs (possibly after its request expired)
+	VerifPeerPartial           // answers only the first half of each request
+	VerifPeerEmpty             // answers with an empty list
+)
+
+type VerifLoopPeer struct {
+	ID      string
+	Kind    int
+	DelayMs int
+}
+
+type VerifLoopConfig struct {
+	Origin       uint64
+	Headers      []*types.Header
+	Bodies       map[common.Hash][]*types.Transaction
+	Peers        []VerifLoopPeer
+	Master       string
+	RTTms        int  // rttEstimate; request TTL = 3 * RTT
+	WatchdogMs   int  // give up (liveness failure) after this long
+	FinishedAtMs int  // when the header side signals completion (wake=false); 0 = before the loop starts
+	ImportEvery  int  // call Results(false) at the start of every n-th tick (0 = only after the loop)
+	Trace        bool // call fetchParts with recording wrappers instead of fetchBodies
+}
+
+type VerifLoopEvent struct {
+	Kind     string // E expire, P pending, I inFlight, T throttle, L idle list, R reserve, D deliver, SI setIdle, DP dropPeer, X results
+	Peer     string
+	N        int
+	B        bool
+	Ids      []string // E: expired ids; L: idle ids
+	Counts   []int    // E: fails per expired id; L: capacity per idle id
+	Known    []bool   // E: whether the expired peer is still registered
+	Request  []*types.Header
+	Lists    [][]*types.Transaction
+	Err      string
+	Results  []*VerifResult
+	Dump     *VerifDump // after state-changing calls
+	NumPeers int
+}
+
+type VerifLoopResult struct {
+	Completed     bool
+	Err           string
+	Events        []VerifLoopEvent
+	Results       []*VerifResult
+	Asked         map[string]int
+	PendingBlocks int
+	InFlight      bool
+	Limit         int
+}
+
+type verifLoopPeer struct {
+	cfg    VerifLoopPeer
+	d      *Downloader
+	bodies map[common.Hash][]*types.Transaction
+	lock   sync.Mutex
+	asked  int
+	calls  int
+}
+
+func (p *verifLoopPeer) Head() (common.Hash, *big.Int) { return common.Hash{}, new(big.Int) }
+func (p *verifLoopPeer) Origin() *big.Int              { return new(big.Int) }
+func (p *verifLoopPeer) RequestHeadersByHash(common.Hash, int, int, bool, bool) error {
+	return nil
+}
+func (p *verifLoopPeer) RequestHeadersByNumber(uint64, int, int, bool, bool) error { return nil }
+func (p *verifLoopPeer) RequestReceipts([]common.Hash) error                       { return nil }
+func (p *verifLoopPeer) RequestNodeData(types.TrieKind, []common.Hash) error       { return nil }
+
+func (p *verifLoopPeer) RequestBodies(hashes []common.Hash) error {
+	p.lock.Lock()
+	p.asked += len(hashes)
+	p.calls++
+	call := p.calls
+	p.lock.Unlock()
+	txs := make([][]*types.Transaction, 0, len(hashes))
+	for _, h := range hashes {
+		txs = append(txs, p.bodies[h])
+	}
+	switch p.cfg.Kind {
+	case VerifPeerStaller:
+		return nil
+	case VerifPeerDisconnect:
+		return p.d.UnregisterPeer(p.cfg.ID)
+	case VerifPeerLiarOnce:
+		if call == 1 && len(txs) > 1 {
+			txs = append(txs[1:], txs[0])
+		} else if call == 1 {
+			txs = [][]*types.Transaction{{}}
+		}
+	case VerifPeerSlow:
+		time.Sleep(time.Duration(p.cfg.DelayMs) * time.Millisecond)
+	case VerifPeerPartial:
+		txs = txs[:len(txs)/2]
+	case VerifPeerEmpty:
+		txs = nil
+	}
+	return p.d.DeliverBodies(p.cfg.ID, txs)
+}
+
+func resultsView(rs []*fetchResult) []*VerifResult {
+	out := make([]*VerifResult, 0, len(rs))
+	for _, r := range rs {
+		out = append(out, &VerifResult{Pending: r.Pending, Hash: r.Hash, Header: r.Header, Transactions: r.Transactions, Receipts: r.Receipts})
+	}
+	return out
+}
+
+// VerifRunFetchLoop runs one body download with the real loop. Set the queue sizing with VerifSetLimits first.
+func VerifRunFetchLoop(cfg VerifLoopConfig) *VerifLoopResult {
+	d := &Downloader{
+		rttEstimate:   uint64(time.Duration(cfg.RTTms) * time.Millisecond),
+		rttConfidence: 1000000,
+		mode:          FullSync,
+		peers:         newPeerSet(),
+		queue:         newQueue(),
+		cancelCh:      make(chan struct{}),
+		cancelPeer:    cfg.Master,
+		quitCh:        make(chan struct{}),
+		bodyWakeCh:    make(chan bool, 1),
+		bodyCh:        make(chan dataPack, 1),
+	}
+	res := &VerifLoopResult{Asked: map[string]int{}}
+	var lock sync.Mutex
+	record := func(e VerifLoopEvent) {
+		lock.Lock()
+		res.Events = append(res.Events, e)
+		lock.Unlock()
+	}
+	dump := func() *VerifDump {
+		v := &VerifQueue{q: d.queue, peers: map[string]*peerConnection{}}
+		for _, p := range d.peers.AllPeers() {
+			v.peers[p.id] = p
+		}
+		return v.Dump()
+	}
+	d.dropPeer = func(id string) {
+		record(VerifLoopEvent{Kind: "DP", Peer: id})
+		d.UnregisterPeer(id)
+	}
+	defer d.cancel()
+
+	var fakes []*verifLoopPeer
+	for _, pc := range cfg.Peers {
+		fp := &verifLoopPeer{cfg: pc, d: d, bodies: cfg.Bodies}
+		fakes = append(fakes, fp)
+		if err := d.RegisterPeer(pc.ID, fp); err != nil {
+			res.Err = "register: " + err.Error()
+			return res
+		}
+	}
+	d.queue.Reset()
+	d.queue.Prepare(cfg.Origin, FullSync)
+	d.queue.Schedule(cfg.Headers, cfg.Origin)
+	{
+		v := &VerifQueue{q: d.queue}
+		res.Limit = v.VerifLimit()
+	}
+	if cfg.FinishedAtMs <= 0 {
+		d.bodyWakeCh <- false
+	} else {
+		d.bodyWakeCh <- true
+		go func() {
+			time.Sleep(time.Duration(cfg.FinishedAtMs) * time.Millisecond)
+			select {
+			case d.bodyWakeCh <- false:
+			case <-d.cancelCh:
+			}
+		}()
+	}
+	ticks := 0
+	importer := func() {
+		if cfg.ImportEvery > 0 && ticks%cfg.ImportEvery == 0 {
+			rs := resultsView(d.queue.Results(false))
+			if len(rs) > 0 {
+				res.Results = append(res.Results, rs...)
+				record(VerifLoopEvent{Kind: "X", Results: rs, Dump: dump()})
+			}
+		}
+		ticks++
+	}
+
+	done := make(chan error, 1)
+	if !cfg.Trace {
+		go func() { done <- d.fetchBodies() }()
+	} else {
+		// the callbacks of fetchBodies, verbatim, each wrapped with a recorder
+		var (
+			deliver = func(packet dataPack) (int, error) {
+				pack := packet.(*bodyPack)
+				n, err := d.queue.DeliverBodies(pack.peerID, pack.transactions)
+				record(VerifLoopEvent{Kind: "D", Peer: pack.peerID, Lists: pack.transactions, N: n, Err: VerifErrClass(err), Dump: dump()})
+				return n, err
+			}
+			expire = func() map[string]int {
+				np := d.peers.Len()
+				importer()
+				m := d.queue.ExpireBodies(d.requestTTL())
+				ev := VerifLoopEvent{Kind: "E", NumPeers: np}
+				for id := range m {
+					ev.Ids = append(ev.Ids, id)
+				}
+				sort.Strings(ev.Ids)
+				for _, id := range ev.Ids {
+					ev.Counts = append(ev.Counts, m[id])
+					ev.Known = append(ev.Known, d.peers.Peer(id) != nil)
+				}
+				ev.Dump = dump()
+				record(ev)
+				return m
+			}
+			pending = func() int {
+				n := d.queue.PendingBlocks()
+				record(VerifLoopEvent{Kind: "P", N: n})
+				return n
+			}
+			inFlight = func() bool {
+				b := d.queue.InFlightBlocks()
+				record(VerifLoopEvent{Kind: "I", B: b})
+				return b
+			}
+			throttle = func() bool {
+				b := d.queue.ShouldThrottleBlocks()
+				record(VerifLoopEvent{Kind: "T", B: b})
+				return b
+			}
+			reserve = func(p *peerConnection, count int) (*fetchRequest, bool, error) {
+				r, progress, err := d.queue.ReserveBodies(p, count)
+				ev := VerifLoopEvent{Kind: "R", Peer: p.id, N: count, B: progress, Err: VerifErrClass(err), Dump: dump()}
+				if r != nil {
+					ev.Request = append([]*types.Header{}, r.Headers...)
+				}
+				record(ev)
+				return r, progress, err
+			}
+			fetch    = func(p *peerConnection, req *fetchRequest) error { return p.FetchBodies(req) }
+			capacity = func(p *peerConnection) int { return p.BlockCapacity(d.requestRTT()) }
+			idle     = func() ([]*peerConnection, int) {
+				ps, total := d.peers.BodyIdlePeers()
+				ev := VerifLoopEvent{Kind: "L", N: total}
+				for _, p := range ps {
+					ev.Ids = append(ev.Ids, p.id)
+					ev.Counts = append(ev.Counts, p.BlockCapacity(d.requestRTT()))
+				}
+				record(ev)
+				return ps, total
+			}
+			setIdle = func(p *peerConnection, accepted int) {
+				record(VerifLoopEvent{Kind: "SI", Peer: p.id, N: accepted})
+				p.SetBodiesIdle(accepted)
+			}
+		)
+		go func() {
+			done <- d.fetchParts(d.bodyCh, deliver, d.bodyWakeCh, expire,
+				pending, inFlight, throttle, reserve,
+				nil, fetch, d.queue.CancelBodies, capacity, idle, setIdle, "bodies")
+		}()
+	}
+	select {
+	case err := <-done:
+		res.Completed = true
+		if err != nil {
+			res.Err = err.Error()
+		}
+	case <-time.After(time.Duration(cfg.WatchdogMs) * time.Millisecond):
+		d.cancel()
+		select {
+		case <-done:
+		case <-time.After(2 * time.Second):
+		}
+	}
+	res.PendingBlocks, res.InFlight = d.queue.PendingBlocks(), d.queue.InFlightBlocks()
+	for {
+		rs := resultsView(d.queue.Results(false))
+		if len(rs) == 0 {
+			break
+		}
+		res.Results = append(res.Results, rs...)
+		record(VerifLoopEvent{Kind: "X", Results: rs, Dump: dump()})
+	}
+	for _, fp := range fakes {
+		fp.lock.Lock()
+		res.Asked[fp.cfg.ID] = fp.asked
+		fp.lock.Unlock()
+	}
+	return res
 }
